@@ -642,3 +642,75 @@ def visitor_check(tier, seed, jobs=16):
             edits += ne
             fails += f
     return total, nodes, edits, fails
+
+
+# ----------------------------------------------------------------------------------------------------------------------
+# token-stream primitives of the parser against the abstract stream Engine B assumes (bounded)
+
+def stream_primitives_check(tier):
+    """every sequence of <= 4 (quick) / 5 (thorough) primitive operations on every token text of a small family: the real Parser's
+    peek / advance / expect / expect_keyword / skip agree with a list-based model of the token stream (value returned, exception class and
+    position, tokens left), and `_last` is the token consumed last.  peek(2) with EOF next is excluded: Engine B proves (P7) that no
+    parse method does that (the real _advance_window would not return)."""
+    import itertools
+    from py_gql.exc import GraphQLSyntaxError, UnexpectedEOF, UnexpectedToken
+    from py_gql.lang.lexer import Lexer
+    from py_gql.lang.parser import Parser
+    from py_gql.lang.token import EOF, CurlyOpen, Name
+    texts = ["", "a", "{", "a {", "{ a", "a b", '"s" a', "a { b", "1 a {"]
+    ops = [("peek", 1), ("peek", 2), ("advance",), ("skip", Name), ("skip", CurlyOpen), ("expect", Name), ("expect", CurlyOpen), ("expect_keyword", "a")]
+    depth = 5 if tier == "thorough" else 4
+    n = 0
+    fails = []
+    for text in texts:
+        toks = list(Lexer(text))
+        for seq in itertools.product(range(len(ops)), repeat=depth):
+            p = Parser(text)
+            i = 0
+            last = None
+            for k in seq:
+                op = ops[k]
+                # model
+                if op[0] == "peek":
+                    if op[1] == 2 and (i >= len(toks) or toks[i].__class__ is EOF):
+                        break                      # excluded case, see docstring
+                    want = ("val", toks[i + op[1] - 1]) if i + op[1] - 1 < len(toks) else ("exc", UnexpectedEOF, len(text))
+                elif op[0] == "advance":
+                    if i < len(toks):
+                        want, last, i = ("val", toks[i]), toks[i], i + 1
+                    else:
+                        want = ("exc", UnexpectedEOF, len(text))
+                else:
+                    if i >= len(toks):
+                        want = ("exc", UnexpectedEOF, len(text))
+                    else:
+                        t = toks[i]
+                        hit = (t.__class__ is op[1]) if op[0] in ("skip", "expect") else (t.__class__ is Name and t.value == op[1])
+                        if hit:
+                            want, last, i = (("val", True) if op[0] == "skip" else ("val", t)), t, i + 1
+                        elif op[0] == "skip":
+                            want = ("val", False)
+                        else:
+                            want = ("exc", UnexpectedToken, t.start)
+                # real
+                try:
+                    got = ("val", getattr(p, op[0])(*op[1:]))
+                except GraphQLSyntaxError as e:
+                    got = ("exc", type(e), e.position)
+                except Exception as e:   # noqa
+                    got = ("crash", repr(e), None)
+                n += 1
+                if got != want or (last is not None and getattr(p, "_last", None) != last):
+                    fails.append(("Parser.stream-primitives", {"text": text, "ops": [repr(ops[j]) for j in seq], "at": repr(op), "got": repr(got), "want": repr(want)},
+                                  "on %r the primitive %r returned %r, the abstract token stream says %r" % (text, op, got, want)))
+                    break
+                if want[0] == "exc":
+                    break
+    seen = set()
+    uniq = []
+    for f in fails:
+        key = (f[1]["text"], f[1]["at"], f[1]["got"])
+        if key not in seen:
+            seen.add(key)
+            uniq.append(f)
+    return n, uniq[:5]
